@@ -1186,6 +1186,10 @@ class PDFPageInterpreter:
             if settings.STRICT:
                 raise PDFInterpreterError("No font specified!")
             return
+        if not isinstance(seq, list):
+            if settings.STRICT:
+                raise PDFInterpreterError(f"Invalid TJ operand: {seq!r}")
+            return
         assert self.ncs is not None
         self.device.render_string(
             self.textstate,
